@@ -239,6 +239,49 @@ fn record_ro(case: &RoCase, rep: &mut Report) {
     }
 }
 
+/// Fails every open of a path with the given suffix (a copy in a read-only level) with `errno`.
+struct FailOpensOf {
+    suffix: String,
+    errno: i32,
+}
+
+impl shim::Controller for FailOpensOf {
+    fn before(&self, ev: &Ev) -> shim::Action {
+        if matches!(ev.kind, Kind::Open | Kind::Stat) && ev.path.as_ref().map(|p| p.ends_with(&self.suffix)).unwrap_or(false) {
+            return shim::Action::Fail(self.errno);
+        }
+        shim::Action::Proceed
+    }
+}
+
+/// The same cell with the probes of each read-only copy answered ESTALE / EIO / EACCES / ENOENT.
+fn record_with_faults(cell: &Cell, rep: &mut Report) {
+    let w = if cell.has_writer() { 1 } else { 0 };
+    for lvl in w..cell.contents.len() {
+        if cell.contents[lvl] == 0 {
+            continue;
+        }
+        for errno in [libc::ESTALE, libc::EIO, libc::EACCES, libc::ENOENT] {
+            let suffix = format!("/r{}/{}", lvl - w, if cell.readers[lvl - w] == Front::Plain { "key".to_string() } else {
+                format!("{}/key", ops::shard_dir_name(if cell.contents[lvl] >= 3 { 2 } else { 1 }))
+            });
+            let ctl = std::sync::Arc::new(FailOpensOf { suffix, errno });
+            CONTROLLER.with(|c| *c.borrow_mut() = Some(ctl as std::sync::Arc<dyn shim::Controller>));
+            let before = rep.violations.len();
+            record(cell, rep);
+            CONTROLLER.with(|c| *c.borrow_mut() = None);
+            for v in rep.violations.iter_mut().skip(before) {
+                v.signature = format!("{}-under-fault", v.signature);
+                if let Some(o) = v.case.as_object_mut() {
+                    o.insert("fault_level".into(), json!(lvl));
+                    o.insert("fault_errno".into(), json!(errno));
+                }
+            }
+            rep.count("faulted_probe_cells", 1);
+        }
+    }
+}
+
 fn record(cell: &Cell, rep: &mut Report) {
     rep.evaluations += 1;
     rep.states += 1;
@@ -262,7 +305,8 @@ pub fn run(_tier: Tier, shard: Shard, rep: &mut Report) {
         unlink, chmod, truncate, write, mtime-setting utimens) targets a read-only root; recursive snapshots equal except atime \
         advancing on a found entry; missing roots stay missing. Non-trivial = a read-only level holds a copy / a degenerate root \
         or unusual name is involved. The lookup/touch cells are repeated with every planted copy stamped one day ahead of the local \
-        clock (entries written by a host whose clock runs ahead)."
+        clock (entries written by a host whose clock runs ahead), and with the probes (open/stat) of each read-only copy answered \
+        ESTALE, EIO, EACCES or ENOENT."
         .into();
     rep.assumptions = vec![
         "operation histories on stacked front-ends are additionally monitored inside the C11 exploration".into(),
@@ -289,9 +333,23 @@ pub fn run(_tier: Tier, shard: Shard, rep: &mut Report) {
             continue;
         }
         FUTURE_DATED.with(|f| f.set(true));
+        let before = rep.violations.len();
         record(cell, rep);
         FUTURE_DATED.with(|f| f.set(false));
+        for v in rep.violations.iter_mut().skip(before) {
+            if let Some(o) = v.case.as_object_mut() {
+                o.insert("future_dated".into(), json!(true));
+            }
+        }
         rep.count("future_dated_cells", 1);
+    }
+    // lookups whose probe of a read-only copy fails (a stale NFS handle, an I/O error, no permission)
+    for cell in all.iter().filter(|c| matches!(c.op, MOp::Get | MOp::Touch | MOp::Ensure | MOp::Gou(_)) && c.checker == 0 && c.readers.len() <= 2) {
+        no += 1;
+        if !shard.mine(no) {
+            continue;
+        }
+        record_with_faults(cell, rep);
     }
     for case in ro_cases() {
         no += 1;
@@ -310,7 +368,12 @@ pub fn run(_tier: Tier, shard: Shard, rep: &mut Report) {
 pub fn replay(case: &Value, rep: &mut Report) {
     if case.get("ro").is_some() {
         record_ro(&RoCase::from_json(case), rep);
+    } else if case.get("fault_level").is_some() {
+        record_with_faults(&Cell::from_json(case), rep);
     } else {
+        let future = case.get("future_dated").and_then(|v| v.as_bool()).unwrap_or(false);
+        FUTURE_DATED.with(|f| f.set(future));
         record(&Cell::from_json(case), rep);
+        FUTURE_DATED.with(|f| f.set(false));
     }
 }
